@@ -15,6 +15,75 @@ namespace hz
 {
 static void putc(Out& o, std::complex<double> z) { o << z.real() << z.imag(); }
 
+// ---------------------------------------------------------------------------------------------------
+// Pre-main probe (class D, "no history at all"): every C17 function is evaluated on a small grid from the
+// constructor of a namespace-scope object of THIS translation unit, which precedes the library objects on the
+// link line and is therefore initialised before them (once with the default priority, once with
+// init_priority(101), i.e. before every default-priority initialiser of the program). `c17.premain` returns the
+// stored values next to the same calls made from main(); they must agree bit for bit.
+// ---------------------------------------------------------------------------------------------------
+typedef std::vector<std::pair<std::string, double>> ProbeLog;
+
+static void probe_all(ProbeLog& log)
+{
+	auto put  = [&log](const std::string& name, double v) { log.push_back({name, v}); };
+	auto putz = [&log](const std::string& name, std::complex<double> z) {
+		log.push_back({name + ".re", z.real()});
+		log.push_back({name + ".im", z.imag()});
+	};
+	const double xs[] = {0.0, 0.05, -0.15, 0.19, 0.2, -0.25, 0.4, 0.75, -1.2, 2.0, 3.7, -9.5, 26.0};
+	for(double x : xs)
+	{
+		std::string t = "(" + hex(x) + ")";
+		put("Sign" + t, Sign(x));
+		put("Sign2" + t, Sign(x, -1.5));
+		put("StepFunction" + t, StepFunction(x));
+		put("Round" + t, Round(x * 1234.56789, 3));
+		put("Relative_Difference" + t, Relative_Difference(x, 0.3));
+		put("Floats_Equal" + t, Floats_Equal(x, x * (1.0 + 1e-12), 1e-10) ? 1.0 : 0.0);
+		put("Dawson_Integral" + t, Dawson_Integral(x));
+		put("Erfi" + t, Erfi(x));
+	}
+	const double ps[] = {0.0, 0.3, -0.77, 0.999, -0.999999};
+	for(double p : ps)
+		put("Inv_Erf(" + hex(p) + ")", Inv_Erf(p));
+	const int lms[][2] = {{0, 0}, {1, -1}, {1, 0}, {2, 1}, {3, -3}, {5, 2}};
+	for(auto& lm : lms)
+	{
+		int l = lm[0], m = lm[1];
+		std::string t = "(" + std::to_string(l) + "," + std::to_string(m) + ")";
+		putz("Spherical_Harmonics" + t, Spherical_Harmonics(l, m, 0.7, 2.1));
+		for(int c = 0; c < 3; c++)
+		{
+			putz("VSH_Y_Component" + t + "[" + std::to_string(c) + "]", VSH_Y_Component(c, l, m, l + 1, c == 2 ? m : m + 1));
+			putz("VSH_Psi_Component" + t + "[" + std::to_string(c) + "]", VSH_Psi_Component(c, l, m, l + 1, c == 2 ? m : m - 1));
+		}
+		std::vector<std::complex<double>> Y = Vector_Spherical_Harmonics_Y(l, m, 0.7, 2.1);
+		std::vector<std::complex<double>> P = Vector_Spherical_Harmonics_Psi(l, m, 0.7, 2.1);
+		for(size_t i = 0; i < Y.size(); i++)
+			putz("Vector_Spherical_Harmonics_Y" + t + "[" + std::to_string(i) + "]", Y[i]);
+		for(size_t i = 0; i < P.size(); i++)
+			putz("Vector_Spherical_Harmonics_Psi" + t + "[" + std::to_string(i) + "]", P[i]);
+	}
+}
+
+struct PreMainProbe
+{
+	ProbeLog log;
+	PreMainProbe() { probe_all(log); }
+};
+static PreMainProbe g_probe_early __attribute__((init_priority(101)));
+static PreMainProbe g_probe_default;
+
+// Hermitian product of two results taken by reference: both calls are arguments of ONE expression
+static std::complex<double> herm(const std::vector<std::complex<double>>& x, const std::vector<std::complex<double>>& y)
+{
+	std::complex<double> s = 0.0;
+	for(size_t i = 0; i < x.size() && i < y.size(); i++)
+		s += std::conj(x[i]) * y[i];
+	return s;
+}
+
 std::string handle(const std::string& op, Args& a)
 {
 	if(op == "c17.sign1")
@@ -136,6 +205,65 @@ std::string handle(const std::string& op, Args& a)
 		if(c < 0 || c > 2)
 			return run_forked([&](Out& o) { putc(o, y ? VSH_Y_Component(c, l, m, lh, mh) : VSH_Psi_Component(c, l, m, lh, mh)); });
 		return run([&](Out& o) { putc(o, y ? VSH_Y_Component(c, l, m, lh, mh) : VSH_Psi_Component(c, l, m, lh, mh)); });
+	}
+	if(op == "c17.premain")
+	{
+		a.end();
+		return run([&](Out& o) {
+			ProbeLog now;
+			probe_all(now);
+			size_t n = now.size();
+			o << n << g_probe_early.log.size() << g_probe_default.log.size();
+			for(size_t i = 0; i < n; i++)
+			{
+				o << now[i].first << now[i].second;
+				o << (i < g_probe_early.log.size() ? g_probe_early.log[i].second : NAN);
+				o << (i < g_probe_default.log.size() ? g_probe_default.log[i].second : NAN);
+			}
+		});
+	}
+	if(op == "c17.vshhold")
+	{
+		// three results of the same function alive at the same time, bound to `const auto&` (lifetime extension with a
+		// by-value API) and used inside one expression, against values copied right after each call
+		bool y = a.tok() == "Y";
+		int l[3], m[3];
+		double th[3], ph[3];
+		for(int i = 0; i < 3; i++)
+		{
+			l[i]  = a.i64();
+			m[i]  = a.i64();
+			th[i] = a.dbl();
+			ph[i] = a.dbl();
+		}
+		a.end();
+		return run([&](Out& o) {
+			typedef std::vector<std::complex<double>> V;
+			auto f = [y](int l_, int m_, double t_, double p_) -> V {
+				return y ? Vector_Spherical_Harmonics_Y(l_, m_, t_, p_) : Vector_Spherical_Harmonics_Psi(l_, m_, t_, p_);
+			};
+			// copies, each taken before the next call
+			V c0 = f(l[0], m[0], th[0], ph[0]);
+			V c1 = f(l[1], m[1], th[1], ph[1]);
+			V c2 = f(l[2], m[2], th[2], ph[2]);
+			// held simultaneously without a copy
+			const auto& r0 = y ? Vector_Spherical_Harmonics_Y(l[0], m[0], th[0], ph[0]) : Vector_Spherical_Harmonics_Psi(l[0], m[0], th[0], ph[0]);
+			const auto& r1 = y ? Vector_Spherical_Harmonics_Y(l[1], m[1], th[1], ph[1]) : Vector_Spherical_Harmonics_Psi(l[1], m[1], th[1], ph[1]);
+			const auto& r2 = y ? Vector_Spherical_Harmonics_Y(l[2], m[2], th[2], ph[2]) : Vector_Spherical_Harmonics_Psi(l[2], m[2], th[2], ph[2]);
+			const V* all[6] = {&c0, &c1, &c2, &r0, &r1, &r2};
+			for(const V* v : all)
+			{
+				o << v->size();
+				for(auto z : *v)
+					putc(o, z);
+			}
+			// two calls as arguments of one expression
+			std::complex<double> h_copy = herm(c0, c1);
+			std::complex<double> h_expr = y ? herm(Vector_Spherical_Harmonics_Y(l[0], m[0], th[0], ph[0]), Vector_Spherical_Harmonics_Y(l[1], m[1], th[1], ph[1]))
+											: herm(Vector_Spherical_Harmonics_Psi(l[0], m[0], th[0], ph[0]), Vector_Spherical_Harmonics_Psi(l[1], m[1], th[1], ph[1]));
+			putc(o, h_copy);
+			putc(o, h_expr);
+		});
 	}
 	if(op == "c17.vshsum")
 	{
